@@ -32,7 +32,11 @@ template <integral Int>
 [[nodiscard]] constexpr auto from_chars(char const* first, char const* last, Int& value, int base = 10)
     -> from_chars_result
 {
-    constexpr auto options     = strings::to_integer_options{.skip_whitespace = false, .check_overflow = true};
+    constexpr auto options = strings::to_integer_options{
+        .skip_whitespace = false,
+        .check_overflow  = true,
+        .allow_plus_sign = false,
+    };
     auto const [end, err, val] = strings::to_integer<Int, options>({first, last}, static_cast<Int>(base));
 
     if (err == strings::to_integer_error::overflow) {
